@@ -22,8 +22,85 @@ def const(ctx, mod, name, types=(int, float)):
     return v
 
 
+_PINNED = None
+
+
+def _pinned_attrs(cls):
+    global _PINNED
+    if _PINNED is None:
+        import json
+        import os
+
+        with open(os.path.join(os.path.dirname(os.path.dirname(__file__)), "pinned_attrs.json")) as fh:
+            _PINNED = {k: set(v) for k, v in json.load(fh).items()}
+    out = set()
+    for c in cls.mro():
+        if isinstance(c, ClassRef):
+            out |= _PINNED.get(f"{c.mod}:{c.name}", set())
+    return out
+
+
+def init_constants(cls: ClassRef):
+    """{attr: thunk} for attributes that ``__init__`` (of the class or a repository base) assigns unconditionally, exactly
+    once, to a constant (number, bool, None, bytes/str, enum member or an empty container) - evaluated from the source."""
+    cache = cls.repo.__dict__.setdefault("_init_constants", {})
+    if cls.qual in cache:
+        return cache[cls.qual]
+    out = {}
+    for c in reversed([c for c in cls.mro() if isinstance(c, ClassRef)]):
+        try:
+            init = c.attrs.get("__init__")
+        except Exception:
+            init = None
+        if not isinstance(init, FuncRef):
+            continue
+        seen = {}
+        for st in init.node.body:
+            tgt, val = None, None
+            if isinstance(st, ast.Assign) and len(st.targets) == 1:
+                tgt, val = st.targets[0], st.value
+            elif isinstance(st, ast.AnnAssign) and st.value is not None:
+                tgt, val = st.target, st.value
+            if isinstance(tgt, ast.Attribute) and isinstance(tgt.value, ast.Name) and tgt.value.id == "self":
+                seen[tgt.attr] = seen.get(tgt.attr, 0) + 1
+                try:
+                    v = cls.repo.te.ev(val, cls.repo.module(c.mod), c.mod)
+                except Exception:
+                    v = None
+                    if isinstance(val, ast.Call) and not val.args and not val.keywords and text(val.func) in ("bytearray", "dict", "list", "set", "collections.deque"):
+                        v = {"bytearray": bytearray, "dict": dict, "list": list, "set": set}.get(text(val.func), list)()
+                    else:
+                        out.pop(tgt.attr, None)
+                        continue
+                if v is None or isinstance(v, (int, float, str, bytes, Member)) or (isinstance(v, (list, dict, set, bytearray)) and len(v) == 0):
+                    out[tgt.attr] = (lambda vv: (lambda: type(vv)() if isinstance(vv, (list, dict, set, bytearray)) else vv))(v)
+                else:
+                    out.pop(tgt.attr, None)
+        for a, n in seen.items():
+            if n > 1:
+                out.pop(a, None)
+        # assigned anywhere else inside __init__ (conditionally, in a loop)? then the constant is not certain
+        for n in ast.walk(init.node):
+            if isinstance(n, ast.Attribute) and isinstance(n.ctx, ast.Store) and text(n.value) == "self" and seen.get(n.attr, 0) == 0:
+                out.pop(n.attr, None)
+    cache[cls.qual] = out
+    return out
+
+
 def self_obj(cls: ClassRef, fields=None, volatile=None, tag="self"):
-    o = Obj(cls, dict(fields or {}), tag=tag)
+    """The abstract receiver a rule explores a method on.  Attributes the rule names get the rule's values; attributes
+    that exist on the pinned tree and are not named stay lazily symbolic; attributes *added since* (not in
+    pinned_attrs.json) start with the constant their ``__init__`` assigns, when there is one."""
+    fields = dict(fields or {})
+    if isinstance(cls, ClassRef):
+        try:
+            known = _pinned_attrs(cls)
+            for a, thunk in init_constants(cls).items():
+                if a not in fields and a not in known and a not in (volatile or {}):
+                    fields[a] = thunk()
+        except AnalysisError:
+            pass
+    o = Obj(cls, fields, tag=tag)
     for k, v in (volatile or {}).items():
         o.volatile[k] = list(v)
     return o
